@@ -77,6 +77,17 @@ pub struct MockCase {
     pub fee_sel: u8,
     pub latency_ms: u8,
     pub ops: Vec<Op>,
+    /// run flavour: the client's clock reads T0 + clock[n % len] seconds when op n is issued (not
+    /// monotonic: several clients / a clock stepping back); empty = a steadily advancing clock
+    #[serde(default)]
+    pub clock: Vec<u16>,
+    /// run flavour: the submitter of open request n gives up waiting straight away (its response
+    /// channel is gone when the exchange gets to the request); flags taken modulo the length
+    #[serde(default)]
+    pub abandon: Vec<bool>,
+    /// run flavour: cut-off of trade query n in seconds after T0 (0 = everything); modulo the length
+    #[serde(default)]
+    pub since: Vec<u16>,
 }
 
 const FEES: [(i64, u32); 5] = [(0, 0), (1, 3), (1, 2), (1, 1), (25, 2)];
@@ -197,6 +208,8 @@ struct AcceptedTrade {
     qty: Decimal,
     fees: Decimal,
     instrument: String,
+    /// exchange time of the fill as announced by its trade notification
+    time: chrono::DateTime<chrono::Utc>,
 }
 
 /// Compare an open_order response with the verdict; returns the order id when accepted.
@@ -265,8 +278,11 @@ fn case_strategy(max_ops: usize, queries: bool) -> BoxedStrategy<MockCase> {
         0u8..5,
         0u8..50,
         prop::collection::vec(op(queries), 1..max_ops),
+        if queries { prop_oneof![1 => Just(vec![]), 2 => prop::collection::vec(0u16..40, 2..10)].boxed() } else { Just(vec![]).boxed() },
+        if queries { prop_oneof![1 => Just(vec![]), 1 => prop::collection::vec(prop::bool::weighted(0.15), 1..10)].boxed() } else { Just(vec![]).boxed() },
+        if queries { prop_oneof![1 => Just(vec![]), 2 => prop::collection::vec(0u16..40, 1..6)].boxed() } else { Just(vec![]).boxed() },
     )
-        .prop_map(|(balances, instruments, fee_sel, latency_ms, ops)| MockCase { balances, instruments, fee_sel, latency_ms, ops })
+        .prop_map(|(balances, instruments, fee_sel, latency_ms, ops, clock, abandon, since)| MockCase { balances, instruments, fee_sel, latency_ms, ops, clock, abandon, since })
         .boxed()
 }
 
@@ -376,7 +392,7 @@ impl Check for MockExchangeRun {
         }
         let s = setup(case);
         let rt = tokio::runtime::Builder::new_current_thread().enable_time().start_paused(true).build().expect("runtime");
-        let result: Result<(u32, u32, u32), (String, String)> = rt.block_on(async {
+        let result: Result<(u32, u32, u32, u32, u32, bool), (String, String)> = rt.block_on(async {
             let (req_tx, req_rx) = mpsc::unbounded_channel();
             let (event_tx, event_rx) = broadcast::channel(1024);
             let exchange = build_exchange(case, &s, req_rx, event_tx);
@@ -384,7 +400,7 @@ impl Check for MockExchangeRun {
             let c2 = clock_ms.clone();
             let client = <MockExecution<_> as ExecutionClient>::new(MockExecutionClientConfig {
                 mocked_exchange: ExchangeId::Mock,
-                clock: move || ts(c2.fetch_add(10, Ordering::SeqCst)),
+                clock: move || ts(c2.fetch_add(1, Ordering::SeqCst)),
                 request_tx: req_tx,
                 event_rx,
             });
@@ -402,8 +418,16 @@ impl Check for MockExchangeRun {
             let mut ledger = s.balances.clone();
             let mut trades: Vec<AcceptedTrade> = Vec::new();
             let (mut accepted, mut rejected, mut queries) = (0u32, 0u32, 0u32);
+            let (mut abandoned_accepted, mut cutoff_queries, mut clock_went_back) = (0u32, 0u32, false);
             let watchdog = Duration::from_secs(3600);
             for (n, op) in case.ops.iter().enumerate() {
+                if !case.clock.is_empty() {
+                    let now = T0_MS + 1000 * case.clock[n % case.clock.len()] as i64;
+                    if now < clock_ms.load(Ordering::SeqCst) {
+                        clock_went_back = true;
+                    }
+                    clock_ms.store(now, Ordering::SeqCst);
+                }
                 match *op {
                     Op::Open { inst, unknown_instrument, buy, price_c, size, market } => {
                         let r = resolve(&s, &ledger, n, inst, unknown_instrument, buy, price_c, size, market);
@@ -413,10 +437,31 @@ impl Check for MockExchangeRun {
                             state: r.request.state.clone(),
                         };
                         let before = notes.lock().unwrap().len();
-                        let resp = tokio::time::timeout(watchdog, client.open_order(req)).await.map_err(|_| ("no-response".to_string(), format!("request {n}: no response from the exchange")))?;
-                        let id = check_response(n, &r, &verdict, &resp)?;
-                        // let the notification task run (same latency as the response)
-                        tokio::time::sleep(Duration::from_millis(case.latency_ms as u64 + 1)).await;
+                        let abandon = !case.abandon.is_empty() && case.abandon[n % case.abandon.len()];
+                        let id = if abandon {
+                            // the request is handed to the exchange, then its submitter stops waiting
+                            // (a request timeout): the exchange finds the response channel closed
+                            let _ = tokio::time::timeout(Duration::ZERO, client.open_order(req)).await;
+                            tokio::time::sleep(Duration::from_millis(case.latency_ms as u64 + 1)).await;
+                            let announced = notes.lock().unwrap()[before..].iter().find_map(|e| match &e.kind {
+                                AccountEventKind::Trade(t) => Some(t.order_id.0.to_string()),
+                                _ => None,
+                            });
+                            match (&verdict, announced) {
+                                (Verdict::Accept { .. }, None) => return Err(("abandoned-request-not-announced".to_string(), format!("request {n} (submitter gave up waiting) is affordable, but no trade notification followed"))),
+                                (Verdict::Accept { .. }, Some(id)) => {
+                                    abandoned_accepted += 1;
+                                    Some(id)
+                                }
+                                (_, _) => None,
+                            }
+                        } else {
+                            let resp = tokio::time::timeout(watchdog, client.open_order(req)).await.map_err(|_| ("no-response".to_string(), format!("request {n}: no response from the exchange")))?;
+                            let id = check_response(n, &r, &verdict, &resp)?;
+                            // let the notification task run (same latency as the response)
+                            tokio::time::sleep(Duration::from_millis(case.latency_ms as u64 + 1)).await;
+                            id
+                        };
                         let new: Vec<UnindexedAccountEvent> = notes.lock().unwrap()[before..].to_vec();
                         match (&verdict, id) {
                             (Verdict::Accept { asset, amount }, Some(id)) => {
@@ -427,7 +472,11 @@ impl Check for MockExchangeRun {
                                 if new.len() != 2 || n_bal != 1 || n_trade != 1 || new.iter().any(|e| e.exchange != ExchangeId::Mock) {
                                     return Err(("notification-multiplicity".to_string(), format!("request {n}: accepted order {id} announced by {new:?}, expected exactly one balance ({asset} = {}) and one trade notification", ledger[asset])));
                                 }
-                                trades.push(AcceptedTrade { cid: r.request.key.cid.0.to_string(), order_id: id, side: r.request.state.side, price: r.request.state.price, qty: r.request.state.quantity, fees: s.fee * r.value_quote, instrument: r.request.key.instrument.to_string() });
+                                let time = new.iter().find_map(|e| match &e.kind {
+                                    AccountEventKind::Trade(t) => Some(t.time_exchange),
+                                    _ => None,
+                                }).expect("trade notification counted above");
+                                trades.push(AcceptedTrade { cid: r.request.key.cid.0.to_string(), order_id: id, side: r.request.state.side, price: r.request.state.price, qty: r.request.state.quantity, fees: s.fee * r.value_quote, instrument: r.request.key.instrument.to_string(), time });
                             }
                             (_, None) => {
                                 rejected += 1;
@@ -458,11 +507,19 @@ impl Check for MockExchangeRun {
                     }
                     Op::QueryTrades => {
                         queries += 1;
-                        let t = tokio::time::timeout(watchdog, client.fetch_trades(ts(0))).await.map_err(|_| ("no-response".to_string(), "trade query unanswered".to_string()))?.map_err(|e| ("query-failed".to_string(), format!("{e:?}")))?;
-                        let got: Vec<(String, Side, Decimal, Decimal, Decimal, String)> = t.iter().map(|x| (x.order_id.0.to_string(), x.side, x.price, x.quantity, x.fees.fees, x.instrument.to_string())).collect();
-                        let want: Vec<_> = trades.iter().map(|x| (x.order_id.clone(), x.side, x.price, x.qty, x.fees, x.instrument.clone())).collect();
+                        let cutoff = if case.since.is_empty() { 0 } else { case.since[n % case.since.len()] };
+                        let since = if cutoff == 0 { ts(0) } else { ts(T0_MS + 1000 * cutoff as i64) };
+                        let t = tokio::time::timeout(watchdog, client.fetch_trades(since)).await.map_err(|_| ("no-response".to_string(), "trade query unanswered".to_string()))?.map_err(|e| ("query-failed".to_string(), format!("{e:?}")))?;
+                        let mut got: Vec<(String, Side, Decimal, Decimal, Decimal, String)> = t.iter().map(|x| (x.order_id.0.to_string(), x.side, x.price, x.quantity, x.fees.fees, x.instrument.to_string())).collect();
+                        let mut want: Vec<_> = trades.iter().filter(|x| x.time >= since).map(|x| (x.order_id.clone(), x.side, x.price, x.qty, x.fees, x.instrument.clone())).collect();
+                        if cutoff > 0 {
+                            cutoff_queries += 1;
+                        }
+                        // the order of the listing is not stated: compare as sets
+                        got.sort_by(|a, b| a.0.cmp(&b.0));
+                        want.sort_by(|a, b| a.0.cmp(&b.0));
                         if got != want {
-                            return Err(("trade-query".to_string(), format!("op {n}: fetch_trades {got:?} != accepted orders {want:?}")));
+                            return Err(("trade-query".to_string(), format!("op {n}: fetch_trades(since {since}) {got:?} != accepted orders filled at or after it {want:?} (all accepted: {:?})", trades.iter().map(|x| (&x.order_id, x.time)).collect::<Vec<_>>())));
                         }
                     }
                 }
@@ -483,10 +540,13 @@ impl Check for MockExchangeRun {
             drop(client);
             collector.abort();
             let _ = tokio::time::timeout(Duration::from_secs(10), handle).await;
-            Ok((accepted, rejected, queries))
+            Ok((accepted, rejected, queries, abandoned_accepted, cutoff_queries, clock_went_back))
         });
         match result {
-            Ok((a, r, q)) => {
+            Ok((a, r, q, ab, cq, back)) => {
+                rep.class_if(ab > 0, "accepted_order_whose_submitter_gave_up");
+                rep.class_if(cq > 0, "trade_query_with_cutoff");
+                rep.class_if(back, "client_clock_not_monotonic");
                 rep.class_if(a > 0, "accepted_order");
                 rep.class_if(r > 0, "rejected_order");
                 rep.class_if(q > 0, "query");
@@ -500,7 +560,7 @@ impl Check for MockExchangeRun {
 }
 
 pub fn run(ctx: &mut Ctx) {
-    ctx.rule = "mock_ledger: 2..4 assets with generated initial balances (incl. zero), 1..3 spot instruments, fee in {0, 0.1%, 1%, 10%, 25%}, vec(request,1..30|60): side, price (2 dp), quantity explicit or sized against the spent asset's available balance (all of it / one 0.000001 more / half), 10% limit orders, 7% unknown instrument; checked after every request. mock_exchange_run: same with interleaved snapshot/balance/trade queries through MockExecution + MockExchange::run under the paused clock, latency 0..49 ms. non-trivial = (ledger) an accepted sell AND a balance rejection AND a kind/instrument rejection in one history; (run) accepted + rejected + query; distinct by hash of the case.".into();
+    ctx.rule = "mock_ledger: 2..4 assets with generated initial balances (incl. zero), 1..3 spot instruments, fee in {0, 0.1%, 1%, 10%, 25%}, vec(request,1..30|60): side, price (2 dp), quantity explicit or sized against the spent asset's available balance (all of it / one 0.000001 more / half), 10% limit orders, 7% unknown instrument; checked after every request. mock_exchange_run: same with interleaved snapshot/balance/trade queries through MockExecution + MockExchange::run under the paused clock, latency 0..49 ms; in two thirds of the cases the client clock is a generated non-monotonic sequence and trade queries carry a cut-off (expected = accepted fills announced with a time at or after it); in half of the cases 15% of the open requests are abandoned by their submitter before the exchange answers (still executed, announced and listed iff affordable). non-trivial = (ledger) an accepted sell AND a balance rejection AND a kind/instrument rejection in one history; (run) accepted + rejected + query; distinct by hash of the case.".into();
     ctx.assumptions = vec![
         "balances present for every asset of a configured instrument, total == free (what the builder sets up)".into(),
         "all arithmetic exact: prices 2 dp, quantities <= 6 dp, fees <= 3 dp".into(),
